@@ -14,7 +14,8 @@ PROPS_FILE = "props/C10.v"
 GEN = ["gen_sched"]
 CORRESPONDENCES = ["write-pipeline:trace~model", "read-pipeline:trace~model", "auto-budget:real~translated-formula",
                    "declared-cost>=buffer:buffer-protocol stagers/consumers"]
-RULE = ("gated executions of the real execute_write_reqs+PendingIOWork.complete and execute_read_reqs: request "
+RULE = ("end to end: real Snapshot.take / restore under a small per-rank budget knob with the bytes of existing buffers "
+        "measured at the stager / storage / consumer seams; gated executions of the real execute_write_reqs+PendingIOWork.complete and execute_read_reqs: request "
         "multisets with costs from {0,1,B-1,B,B+1,2B,random}, buffer sizes <= cost, B in {1,small,large}, K in "
         "{1,2,3,16}, completion order chosen by a pick list (quick: random; thorough: all completion orders for <=4 "
         "write / <=4 read requests over a cost lattice). Non-trivial = at least two requests; distinct by "
@@ -307,8 +308,88 @@ def check_declared_costs(ctx: Ctx, res: Result):
             res.failures.append(Failure(f"C10:underdeclared-cost:{name}", f"{name}: merged read of {n} bytes > cost {cost}", {}))
 
 
+def check_e2e(ctx: Ctx, res: Result):
+    """The real Snapshot.take / restore under a small per-rank budget knob, measured independently of the scheduler's own
+    ledger: bytes of buffers that EXIST - staged and not yet written (save); read and not yet consumed (load) - observed at
+    the stager / storage-plugin / consumer seams.  They never exceed the budget unless a single buffer is in flight.
+    Buffer-protocol tensors only (declared cost = buffer size; the object / torch_save classes are the known findings)."""
+    import os
+    import shutil
+    import torch
+    from torchsnapshot import Snapshot, StateDict
+    from torchsnapshot.io_preparers.tensor import TensorBufferConsumer, TensorBufferStager
+    from torchsnapshot.storage_plugins.fs import FSStoragePlugin
+    from lib.world import safe_gc
+    rng = ctx.rng
+    led = {"alive": {}, "peak": (0, 0), "read_alive": 0, "read_n": 0, "read_peak": (0, 0)}
+    o_stage, o_write, o_read, o_consume = TensorBufferStager.stage_buffer, FSStoragePlugin.write, FSStoragePlugin.read, TensorBufferConsumer.consume_buffer
+
+    async def stage(self, executor=None):
+        buf = await o_stage(self, executor)
+        led["alive"][id(buf)] = len(buf)
+        tot = sum(led["alive"].values())
+        if len(led["alive"]) > 1 and tot > led["peak"][0]:
+            led["peak"] = (tot, len(led["alive"]))
+        return buf
+
+    async def write(self, write_io):
+        await o_write(self, write_io)
+        led["alive"].pop(id(write_io.buf), None)
+
+    async def read(self, read_io):
+        await o_read(self, read_io)
+        if not read_io.path.endswith(".snapshot_metadata"):
+            led["read_alive"] += len(read_io.buf.getvalue()); led["read_n"] += 1
+            if led["read_n"] > 1 and led["read_alive"] > led["read_peak"][0]:
+                led["read_peak"] = (led["read_alive"], led["read_n"])
+
+    async def consume(self, buf, executor=None):
+        await o_consume(self, buf, executor)
+        led["read_alive"] -= len(buf); led["read_n"] -= 1
+    envs = {"TORCHSNAPSHOT_DISABLE_BATCHING": "1"}
+    saved = {k: os.environ.get(k) for k in list(envs) + ["TORCHSNAPSHOT_PER_RANK_MEMORY_BUDGET_BYTES"]}
+    TensorBufferStager.stage_buffer, FSStoragePlugin.write, FSStoragePlugin.read, TensorBufferConsumer.consume_buffer = stage, write, read, consume
+    try:
+        os.environ.update(envs)
+        for i in range(ctx.n(12, 80)):
+            sizes = [rng.choice([2, 4, 6, 10, 16]) for _ in range(rng.randint(3, 9))]
+            B = rng.choice([16, 24, 40, 64, 100])
+            os.environ["TORCHSNAPSHOT_PER_RANK_MEMORY_BUDGET_BYTES"] = str(B)
+            root = ctx.scratch("c10e")
+            try:
+                state = {f"t{j}": torch.arange(n, dtype=torch.float32) + j for j, n in enumerate(sizes)}
+                led["alive"].clear(); led["peak"] = (0, 0); led["read_alive"] = 0; led["read_n"] = 0; led["read_peak"] = (0, 0)
+                with safe_gc():
+                    Snapshot.take(os.path.join(root, "s"), {"m": StateDict(dict(state))})
+                    wpeak = led["peak"]
+                    tgt = {"m": StateDict({k: torch.zeros_like(v) for k, v in state.items()})}
+                    Snapshot(os.path.join(root, "s")).restore(tgt)
+                    rpeak = led["read_peak"]
+                replay = {"e2e": True, "sizes_elems": sizes, "B": B}
+                res.case({"e2e": True, "bytes": [4 * n for n in sizes], "B": B, "peak_save": wpeak, "peak_load": rpeak}, nontrivial=sum(4 * n for n in sizes) > B)
+                res.count("e2e.budget", B)
+                if wpeak[0] > B:
+                    res.failures.append(Failure("C10:e2e:save-buffers-exceed-budget",
+                                                f"Snapshot.take with budget {B}: {wpeak[0]} bytes of staged, not yet written buffers alive at once ({wpeak[1]} buffers; tensor bytes {[4 * n for n in sizes]})", replay))
+                if rpeak[0] > B:
+                    res.failures.append(Failure("C10:e2e:load-buffers-exceed-budget",
+                                                f"Snapshot.restore with budget {B}: {rpeak[0]} bytes read and not yet consumed at once ({rpeak[1]} buffers; tensor bytes {[4 * n for n in sizes]})", replay))
+                if not all(torch.equal(tgt["m"][k], v) for k, v in state.items()):
+                    res.failures.append(Failure("C10:e2e:restore-differs", f"restore under budget {B} did not reproduce the state", replay))
+            finally:
+                shutil.rmtree(root, ignore_errors=True)
+    finally:
+        TensorBufferStager.stage_buffer, FSStoragePlugin.write, FSStoragePlugin.read, TensorBufferConsumer.consume_buffer = o_stage, o_write, o_read, o_consume
+        for k, v in saved.items():
+            if v is None:
+                os.environ.pop(k, None)
+            else:
+                os.environ[k] = v
+
+
 def correspond(ctx: Ctx) -> Result:
     res = Result(rule=RULE)
+    check_e2e(ctx, res)
     check_write(ctx, res)
     check_read(ctx, res)
     check_auto_budget(ctx, res)
@@ -318,6 +399,10 @@ def correspond(ctx: Ctx) -> Result:
 
 def replay(ctx: Ctx, data):
     r = Result()
+    if data.get("e2e"):
+        # the sweep is seeded: re-running it with the recorded seed/tier reproduces the recorded case
+        check_e2e(Ctx(ctx.prop, data.get("tier", ctx.tier), data.get("seed", ctx.seed)), r)
+        return r.failures[0] if r.failures else None
     if data.get("pipeline") == "write":
         run = sc.run_write([tuple(x) for x in data["reqs"]], data["B"], data["K"], data["picks"])
         _, _, _, acct = sc.write_trace([tuple(x) for x in data["reqs"]], run)
